@@ -337,4 +337,7 @@ class CliPanVsFiles(Instance):
 
 
 from mirsym.models import ite_int
-_reg(CliPanVsFiles("pan_vs_files", PAN[0][1]))
+# PanSN names where one sample#haplotype is a string prefix of the next one (s#1 / s#10)
+PAN2 = [(b"pan.fa", [(b"s#1#c1", C1), (b"s#1#c2", [3, 3, 2, 0]), (b"s#10#c1", C2), (b"s#2#c1", C1[:9] + [7] + C1[10:])])]
+_reg(CliPanVsFiles("pan_vs_files", PAN2[0][1]))
+_reg(CliCreate("create_pan_prefix_t1", PAN2, threads=1))
